@@ -8,6 +8,17 @@ RULE = ("every on_tick of every explored execution (all scenario families) is on
 
 
 def run(chk):
-    eg.standard_run(chk, "C11", ["fanout", "collect", "wait", "handlers", "routing"], {"tick"},
-                    keep=lambda r: "rebuilt" in r)
+    import random
+    from harness.drivers import engine_traces as et
+    from harness.programs import scenarios as sc
+    items = eg.collect(chk, ["fanout", "collect", "wait", "handlers", "routing"])
+    # "... including resumed runs": snapshot mid-run (several invocations in progress), resume, keep comparing
+    rng = random.Random(chk.seed)
+    for (label, prog) in [("fanout(2,3)+resume", sc.fanout(2, 3, 2, 0, 1)), ("fanout(3,4)+resume", sc.fanout(3, 4, None, 0, 0)),
+                          ("collector+resume", sc.collector(2, ("A", "A"), 3))]:
+        for (tr, sched) in et.explore(prog, max_depth=chk.pick(3, 5), max_paths=chk.pick(8, 60), rng=random.Random(rng.random()),
+                                      drain=False, timeout_advance=False):
+            tr2 = et.replay_then_resume(prog, list(sched))
+            items.append((label, prog, (), tr2, list(sched) + [["snapshot+resume"]]))
+    eg.standard_run(chk, "C11", None, {"tick"}, keep=lambda r: "rebuilt" in r, items=items)
     chk.add(ticks_compared=0)
